@@ -58,12 +58,14 @@ LV = 'self.get_loading_and_validity(identifiers, expected_load, load_details)'
 
 
 def selection(P, cname):
-    """selection spec of one strategy class, from the closed form of the value it returns."""
+    """selection spec of one strategy class, from the closed form of the value it returns and the facts of that return
+    (sa.normalise writes `return A if c else None` as `if c: return A` + `return None`)."""
     u = P.unit(cname + '.get_supvisors_instance')
-    rets = [v for v, f, n in returns(u) if v is not None and not (isinstance(v, ast.Constant) and v.value is None)]
+    rets = [(v, {tuple(f) for f in factmap(u).closed(n)}) for v, f, n in returns(u)
+            if v is not None and not (isinstance(v, ast.Constant) and v.value is None)]
     if len(rets) != 1:
         raise AnalysisError('%s: %d non-None return expressions' % (u.qual, len(rets)))
-    v = defuse(u).closed(rets[0])
+    v, facts = defuse(u).closed(rets[0][0]), rets[0][1]
     # CONFIG shape: next((identifier for identifier, (validity, _, _) in loading_validity_map.items() if validity), None)
     if isinstance(v, ast.Call) and call_text(v) == 'next' and isinstance(v.args[0], ast.GeneratorExp):
         cv = comp_view(u, v.args[0])
@@ -73,23 +75,21 @@ def selection(P, cname):
         if not ok:
             raise AnalysisError('%s: unrecognised next(...) shape' % u.qual)
         return ('candidate-order', 'first'), u
-    if isinstance(v, ast.IfExp) and isinstance(v.orelse, ast.Constant) and v.orelse.value is None:
-        body, test = v.body, ast.unparse(v.test)
-        # sorted shapes: sorted_identifiers[0|-1][0] if sorted_identifiers else None
-        if isinstance(body, ast.Subscript) and isinstance(body.value, ast.Subscript) and \
-                ast.unparse(body.value.value) == test and isinstance(v.test, ast.Call) and \
-                call_text(v.test).startswith('self.sort_valid_by_') and [ast.unparse(a) for a in v.test.args] == [LV]:
-            idx = ast.unparse(body.value.slice)
-            fld = ast.unparse(body.slice)
-            if idx in ('0', '-1'):
-                order, first_field, su = sorter_key(P, call_text(v.test)[5:])
-                if fld != '0' or first_field != 'identifier':
-                    raise AnalysisError('%s: returned field %s is not the identifier' % (u.qual, fld))
-                return (order, 'first' if idx == '0' else 'last'), u
-        # LOCAL shape: local_identifier if validity else None
-        loc = 'self.supvisors.mapper.local_identifier'
-        if ast.unparse(body) == loc and test == '%s[%s][0]' % (LV, loc):
-            return ('local', 'only'), u
+    # sorted shapes: sorted_identifiers[0|-1][0], returned under the fact `sorted_identifiers` (not empty)
+    if isinstance(v, ast.Subscript) and isinstance(v.value, ast.Subscript) and isinstance(v.value.value, ast.Call) and \
+            call_text(v.value.value).startswith('self.sort_valid_by_') and \
+            [ast.unparse(a) for a in v.value.value.args] == [LV] and (ast.unparse(v.value.value), True) in facts:
+        idx = ast.unparse(v.value.slice)
+        fld = ast.unparse(v.slice)
+        if idx in ('0', '-1'):
+            order, first_field, su = sorter_key(P, call_text(v.value.value)[5:])
+            if fld != '0' or first_field != 'identifier':
+                raise AnalysisError('%s: returned field %s is not the identifier' % (u.qual, fld))
+            return (order, 'first' if idx == '0' else 'last'), u
+    # LOCAL shape: local_identifier, returned under the fact `validity of the local identifier`
+    loc = 'self.supvisors.mapper.local_identifier'
+    if ast.unparse(v) == loc and ('%s[%s][0]' % (LV, loc), True) in facts:
+        return ('local', 'only'), u
     if isinstance(v, ast.Call) and call_text(v) in ('min', 'max'):
         raise AnalysisError('%s: min/max selection shape not summarised' % u.qual)
     raise AnalysisError('%s: unrecognised selection shape `%s`' % (u.qual, ast.unparse(v)))
